@@ -72,8 +72,33 @@ def install(E):
         M = max(abs(lo), abs(hi))
         if M > FMAX[bits]:
             raise EngineError('real-error mode: cannot exclude float overflow (|value| bound %s)' % float(M))
-        if intval and M <= 2 ** MANT[bits]:
+        isint = intval is not None and intval is not False
+        if isint and M <= 2 ** MANT[bits]:
             return SF(e, bits, lo, hi, exact=True, taint=tn)
+        if isint and intval is not True and M <= 2 ** (MANT[bits] + 12):
+            # integer -> float conversion beyond the mantissa, encoded EXACTLY (round to nearest, ties to even) binade by binade:
+            # in binade j (2^(p+j) < |x| <= 2^(p+j+1)) the result is a multiple of 2^(j+1)
+            memo = st.__dict__.setdefault('flmemo', {})
+            key = (e.get_id(), bits, 'i')
+            hit = memo.get(key)
+            if hit is not None: return hit[1]
+            x = intval; P = 2 ** MANT[bits]
+            s.fresh += 1
+            ik = z3.Int('i2f!%d' % s.fresh); k = z3.Int('i2fk!%d' % s.fresh)
+            cs = [z3.Implies(z3.And(x <= P, x >= -P), ik == x)]
+            j = 0
+            while P * 2 ** j < M:
+                step = 2 ** (j + 1)
+                inb = z3.Or(z3.And(x > P * 2 ** j, x <= P * 2 ** (j + 1)), z3.And(x < -P * 2 ** j, x >= -P * 2 ** (j + 1)))
+                cs.append(z3.Implies(inb, z3.And(ik == step * k, 2 * (ik - x) <= step, 2 * (x - ik) <= step,
+                                                 z3.Implies(z3.Or(2 * (ik - x) == step, 2 * (x - ik) == step), k % 2 == 0))))
+                j += 1
+            s.add_pc(st, z3.And(*cs))
+            s.stats['fp_int_roundings'] = s.stats.get('fp_int_roundings', 0) + 1
+            err = Fraction(2 ** j, 2)
+            res = SF(z3.ToReal(ik), bits, lo - err, hi + err, exact=True, taint=tn, ik=ik)
+            memo[key] = (e, res)
+            return res
         if M == 0: return SF(rv(0), bits, Fraction(0), Fraction(0), exact=True, taint=tn)
         err = U[bits] * M
         # smallest normal: subnormal rounding adds an absolute error
@@ -87,6 +112,10 @@ def install(E):
         s.fresh += 1
         r = z3.Real('fl!%d' % s.fresh)
         s.add_pc(st, z3.And(r - e <= rv(err), e - r <= rv(err)))
+        if s.cfg.get('fp_rel'):
+            # relative bound as well: |fl(e) - e| <= u*|e| (+ the subnormal term)
+            ae = z3.If(e >= 0, e, -e)
+            s.add_pc(st, z3.And(r - e <= rv(U[bits]) * ae + rv(tiny), e - r <= rv(U[bits]) * ae + rv(tiny)))
         s.stats['fp_roundings'] = s.stats.get('fp_roundings', 0) + 1
         res = SF(r, bits, lo - err, hi + err, exact=False, taint=tn)
         memo[key] = (e, res)
@@ -234,7 +263,7 @@ def install(E):
         if m == 'havoc': return SF(None, bits, taint=x.taint)
         if m == 'exact':
             return SF(z3.fpRealToFP(RNE, z3.ToReal(zt(x)), sort_of(bits)), bits, x.lo, x.hi, taint=x.taint)
-        r = rounded(s, st, z3.ToReal(zt(x)), Fraction(x.lo), Fraction(x.hi), bits, x.taint, True)
+        r = rounded(s, st, z3.ToReal(zt(x)), Fraction(x.lo), Fraction(x.hi), bits, x.taint, zt(x) if s.cfg.get('fp_int_exact', True) else True)
         if r.exact and r.ik is None: r = SF(r.t, r.bits, r.lo, r.hi, exact=True, taint=r.taint, ik=zt(x))
         return r
     E.fp_from_int = fp_from_int
